@@ -31,7 +31,9 @@ def run(ck, an, tier):
     from rules import ledger
     from sa.report import Renamed
     from rules import C12
-    from rules import C17
+    from rules import C17, C18 as _c18, C04 as _c04
+    _c18.xy_init(ledger._Only(Renamed(ck, "C18:"), {"env-config-action_space"}), an)      # the tabular wrapper hands the configured threshold / bounds to its action space unchanged (0 stays 0)
+    _c04.env_side(ledger._Only(Renamed(ck, "C04:"), {"clock-set", "clock-is-event-time", "both-clocks-set", "each-clock-before-dispatch"}), an)      # a chain target is the lead contract at the time of the event being processed
     C17.s4(ledger._Only(Renamed(ck, "C17:"), {"request-measure", "request-allocation", "request-fractional", "request-margin", "request-contracts", "request-absolute", "request-built"}), an)      # the request is in the unit the space was configured with
     C12.subclass_ctor_plumbing(Renamed(ck, "C12:"), an, "S1")      # the request a space builds carries the space's own configuration (fractional, margin, measure): a target in contracts is not silently truncated
     ledger.valuation_formulas(ledger._Only(Renamed(ck, "C05:"), {"weight-is-notional-over-nlv"}), an, {"weights"})     # the weights reported back are notional / NLV (what a target weight is compared with)
